@@ -9,7 +9,7 @@ PROP = {'lean': 'MpsProps.C02',
               'Mps.C02alg.reconstruct_keypair',
               'Mps.C02alg.reconstruct_fails_degree_succ',
               'Mps.C02alg.doerner_keygen_consistent'],
- 'generated': ['Mps.AlgGen.gen_cmpKeygenChecks',
+ 'generated': ['Mps.Src.SrcCmpKeygen.gen_source', 'Mps.Src.SrcFrostKeygen.gen_source', 'Mps.Src.SrcDoernerKeygen.gen_source', 'Mps.Src.SrcCmpConfig.gen_source', 'Mps.AlgGen.gen_cmpKeygenChecks',
                'Mps.AlgGen.gen_cmpKeygenFinal',
                'Mps.AlgGen.gen_cmpKeygenVss',
                'Mps.AlgGen.gen_cmpPublicPoint',
